@@ -213,7 +213,7 @@ namespace ratio
     void fire_read(const std::vector<std::string> &files) const noexcept;
     CORE_EXPORT void fire_state_changed() const noexcept;
     CORE_EXPORT void fire_started_solving() const noexcept;
-    CORE_EXPORT void fire_solution_found() const noexcept;
+    CORE_EXPORT void fire_solution_found() const; // listeners (e.g., the executor) may report that the solution cannot be used by throwing..
     CORE_EXPORT void fire_inconsistent_problem() const noexcept;
 #endif
   };
